@@ -27,12 +27,12 @@ import (
 //
 // Determinism: everything (RoundTrip, Read, validator, callbacks) runs on Connect's goroutine.
 // Jitter is -1 (no RNG), intervals are microseconds, MaxElapsedTime is unset / 1 ns / one hour, so
-// no outcome depends on the wall clock; a wait of at least "patience" (0.4 s) is never slept:
+// no outcome depends on the wall clock; a wait of at least "patience" (0.9 s) is never slept:
 // OnRetry cancels the context, which the select then observes long before the timer.
 
 func init() { families["connect"] = family{gen: genConnect, exec: execConnect} }
 
-const connPatience = 400_000_000
+const connPatience = 900_000_000
 
 type genBody struct {
 	gen  int
@@ -118,6 +118,16 @@ func (s *scriptBody) Read(p []byte) (int, error) {
 func (s *scriptBody) Close() error { return nil }
 
 func (r *connRun) RoundTrip(req *http.Request) (*http.Response, error) {
+	if err := r.ctx.Err(); err != nil && !r.overrun {
+		// like a real transport: a request on a done context fails with the context's error.  This is only
+		// reached if the select of Connect picked an expired timer over the done context, which needs
+		// the process to stall for the whole wait (>= 0.9 s) after OnRetry cancelled: not logged, so
+		// that even then the observation is the one of the other branch.
+		if req.Body != nil {
+			req.Body.Close()
+		}
+		return nil, err
+	}
 	// what the request carries
 	hdr := []val.V{}
 	for _, v := range req.Header.Values("Last-Event-ID") {
@@ -320,7 +330,7 @@ func connLine(r *rng.R, maxRetryMs int, bigRetry bool) string {
 		return "event: " + rng.Pick(r, []string{"t", "", "message"})
 	case 9:
 		if bigRetry && r.Chance(1, 2) {
-			return "retry: " + rng.Pick(r, []string{"1000", "400", "5000", "1000000000000", "86400000"})
+			return "retry: " + rng.Pick(r, []string{"1000", "900", "5000", "1000000000000", "86400000"})
 		}
 		return "retry: " + strconv.Itoa(r.Intn(maxRetryMs+1))
 	case 10:
